@@ -375,3 +375,139 @@ Proof.
   rewrite no_byte_cons in H1, H2. apply andb_prop in H1 as [Hc1 Ha1]. apply andb_prop in H2 as [Hc2 Ha2].
   apply negb_true_iff in Hc1, Hc2. cbn [app wf_esc]. rewrite Hc1, Hc2. now apply IH.
 Qed.
+
+(* ------------------------------------------------------------------------------------ *)
+(* Part 5: parseActions on a rendered action list                                       *)
+(* ------------------------------------------------------------------------------------ *)
+Definition plain_key (c : N) : bool :=
+  negb (c =? cSQ) && negb (c =? cCOLON) && negb (c =? cCOMMA) && negb (c =? cBS).
+Definition plain_val (c : N) : bool := negb (c =? cSQ) && negb (c =? cCOMMA) && negb (c =? cBS).
+
+Lemma last_cons {A} (c : A) k d : last (c :: k) d = last k c.
+Proof. revert c d. induction k as [|x k IH]; intros c d; [reflexivity|]. cbn [last] in *. destruct k; [reflexivity|]. apply IH. Qed.
+
+Lemma plain_key_split c : plain_key c = true ->
+  (c =? cSQ) = false /\ (c =? cCOLON) = false /\ (c =? cCOMMA) = false /\ (c =? cBS) = false.
+Proof.
+  unfold plain_key. intros H. repeat (apply andb_prop in H as [H ?]).
+  repeat match goal with H : negb _ = true |- _ => apply negb_true_iff in H end. auto.
+Qed.
+Lemma plain_val_split c : plain_val c = true ->
+  (c =? cSQ) = false /\ (c =? cCOMMA) = false /\ (c =? cBS) = false.
+Proof.
+  unfold plain_val. intros H. repeat (apply andb_prop in H as [H ?]).
+  repeat match goal with H : negb _ = true |- _ => apply negb_true_iff in H end. auto.
+Qed.
+
+Lemma pa_loop_key k : forall s prev key, (prev =? cBS) = false -> forallb plain_key k = true ->
+  pa_loop (k ++ s) prev false key None = pa_loop s (last k prev) false (rev k ++ key) None.
+Proof.
+  induction k as [|c k IH]; intros s prev key Hp Hk; [reflexivity|].
+  cbn [forallb] in Hk. apply andb_prop in Hk as [Hc Hk]. destruct (plain_key_split c Hc) as (E1 & E2 & E3 & E4).
+  cbn [app pa_loop pa_push]. rewrite Hp, E1, E2, E3.
+  rewrite (IH s c (c :: key) E4 Hk). rewrite last_cons. cbn [rev]. now rewrite <- app_assoc.
+Qed.
+
+Lemma pa_loop_val k : forall s prev key v, (prev =? cBS) = false -> forallb plain_val k = true ->
+  pa_loop (k ++ s) prev false key (Some v) = pa_loop s (last k prev) false key (Some (rev k ++ v)).
+Proof.
+  induction k as [|c k IH]; intros s prev key v Hp Hk; [reflexivity|].
+  cbn [forallb] in Hk. apply andb_prop in Hk as [Hc Hk]. destruct (plain_val_split c Hc) as (E1 & E3 & E4).
+  cbn [app pa_loop pa_push]. rewrite Hp, E1, E3.
+  destruct (c =? cCOLON); rewrite (IH s c key (c :: v) E4 Hk); rewrite last_cons; cbn [rev];
+    now rewrite <- app_assoc.
+Qed.
+
+Lemma pa_loop_inq val : forall s p key v, wf_qvalue val p = true ->
+  pa_loop (val ++ cSQ :: s) p true key (Some v) = pa_loop s cSQ false key (Some (cSQ :: rev val ++ v)).
+Proof.
+  induction val as [|c val IH]; intros s p key v H.
+  - cbn [wf_qvalue] in H. apply negb_true_iff in H.
+    cbn [app pa_loop pa_push]. rewrite H. change (cSQ =? cSQ) with true. reflexivity.
+  - cbn [wf_qvalue] in H. apply andb_prop in H as [Hc H].
+    cbn [app pa_loop pa_push]. destruct (p =? cBS) eqn:Ep.
+    + rewrite (IH s c key (c :: v) H). cbn [rev]. now rewrite <- app_assoc.
+    + destruct (c =? cSQ) eqn:Ec; [discriminate|].
+      rewrite (IH s c key (c :: v) H). cbn [rev]. now rewrite <- app_assoc.
+Qed.
+
+Lemma wf_uvalue_scan_last val : forall p, wf_uvalue_scan val p = true -> (last val p =? cBS) = false.
+Proof.
+  induction val as [|c val IH]; intros p H.
+  - cbn [wf_uvalue_scan] in H. now apply negb_true_iff in H.
+  - cbn [wf_uvalue_scan] in H. apply andb_prop in H as [_ H]. rewrite last_cons. now apply IH.
+Qed.
+
+Lemma pa_loop_uval val : forall s p key v, wf_uvalue_scan val p = true ->
+  pa_loop (val ++ s) p false key (Some v) = pa_loop s (last val p) false key (Some (rev val ++ v)).
+Proof.
+  induction val as [|c val IH]; intros s p key v H; [reflexivity|].
+  cbn [wf_uvalue_scan] in H. apply andb_prop in H as [Hc H].
+  cbn [app pa_loop pa_push]. rewrite last_cons.
+  destruct (p =? cBS) eqn:Ep.
+  - rewrite (IH s c key (c :: v) H). cbn [rev]. now rewrite <- app_assoc.
+  - destruct (c =? cSQ) eqn:E1; [discriminate|]. destruct (c =? cCOMMA) eqn:E2; [discriminate|].
+    destruct (c =? cCOLON); rewrite (IH s c key (c :: v) H); cbn [rev]; now rewrite <- app_assoc.
+Qed.
+
+(* the raw slices parseActions cuts out of a rendered action *)
+Definition raw_key (v : avar) (a : action) : bytes := av_pad v ++ vary_case (av_mask v) (a_name a).
+Definition raw_val (v : avar) (a : action) : bytes :=
+  match a_value a with
+  | [] => []
+  | val => av_pad v ++ (if av_quote v then cSQ :: val ++ [cSQ] else val)
+  end.
+Fixpoint raws (vs : list avar) (al : list action) : list (bytes * bytes) :=
+  match al with
+  | [] => []
+  | a :: r => (raw_key (hd avar_plain vs) a, raw_val (hd avar_plain vs) a) :: raws (tl vs) r
+  end.
+
+Lemma render_action_eq v a :
+  render_action v a = raw_key v a ++ match a_value a with [] => [] | _ => cCOLON :: raw_val v a end.
+Proof. unfold render_action, raw_key, raw_val. destruct (a_value a); now rewrite <- app_assoc. Qed.
+
+Lemma is_pad_plain pad : is_pad pad = true -> forallb plain_val pad = true /\ forallb plain_key pad = true.
+Proof.
+  induction pad as [|c pad IH]; intros H; [split; reflexivity|].
+  cbn [is_pad forallb] in H. apply andb_prop in H as [Hc Hp]. destruct (IH Hp) as [I1 I2].
+  cbn [forallb]. rewrite I1, I2.
+  apply orb_prop in Hc as [Hc|Hc]; apply N.eqb_eq in Hc; subst c; split; reflexivity.
+Qed.
+
+Lemma is_pad_last pad p : is_pad pad = true -> (p =? cBS) = false -> (last pad p =? cBS) = false.
+Proof.
+  revert p. induction pad as [|c pad IH]; intros p H Hp; [exact Hp|].
+  cbn [is_pad forallb] in H. apply andb_prop in H as [Hc Hpad]. rewrite last_cons. apply IH; [exact Hpad|].
+  apply orb_prop in Hc as [Hc|Hc]; apply N.eqb_eq in Hc; subst c; reflexivity.
+Qed.
+
+(* scanning the value part of one action (after its key), up to what follows it *)
+Lemma pa_value v a key prev s :
+  wf_avar v a = true -> wf_qvalue (a_value a) cSQ = true -> a_value a <> [] -> (prev =? cBS) = false ->
+  exists prev', (prev' =? cBS) = false /\
+  pa_loop (cCOLON :: raw_val v a ++ s) prev false key None
+  = pa_loop s prev' false key (Some (rev (raw_val v a))).
+Proof.
+  intros Hv Hq Hne Hprev. unfold wf_avar in Hv. apply andb_prop in Hv as [Hpad Hqu].
+  destruct (is_pad_plain _ Hpad) as [Hpv _].
+  unfold raw_val. destruct (a_value a) as [|v0 val] eqn:EV; [congruence|]. clear Hne.
+  set (vv := v0 :: val) in *.
+  cbn [pa_loop pa_push]. rewrite Hprev. change (cCOLON =? cSQ) with false. change (cCOLON =? cCOLON) with true.
+  cbn match. rewrite <- app_assoc.
+  rewrite (pa_loop_val (av_pad v) _ cCOLON key [] eq_refl Hpv).
+  assert (Hlp : (last (av_pad v) cCOLON =? cBS) = false) by (apply is_pad_last; [exact Hpad|reflexivity]).
+  destruct (av_quote v) eqn:EQ.
+  - exists cSQ. split; [reflexivity|].
+    cbn [app pa_loop pa_push]. rewrite Hlp. change (cSQ =? cSQ) with true. cbn match. cbn [negb].
+    rewrite <- app_assoc. cbn [app].
+    rewrite (pa_loop_inq vv s cSQ key _ Hq).
+    f_equal. f_equal. rewrite rev_app_distr. cbn [rev app]. rewrite rev_app_distr. cbn [rev app].
+    rewrite app_nil_r. rewrite <- !app_assoc. reflexivity.
+  - cbn [orb] in Hqu. unfold wf_uvalue in Hqu. rewrite EV in Hqu. fold vv in Hqu.
+    apply andb_prop in Hqu as [Hqu _]. apply andb_prop in Hqu as [Hsc _].
+    exists (last vv (last (av_pad v) cCOLON)). split.
+    + (* the scan guard is stated from a colon; the pad only inserts blanks *)
+      admit.
+    + admit.
+Admitted.
